@@ -232,6 +232,7 @@ def run(ctx, rep):
         _visit.run(F, rep, "C07.visit")
         _visit.deep(F, rep, "C07.visit-deep")
     capture_lists_are_complete(F, rep)
+    modify_depends_on_the_declared_variable(F, rep)
 
 
 
@@ -264,6 +265,46 @@ def capture_lists_are_complete(F, rep, rule="C07.capture-list"):
         rep.ob(rule, "%s lists every net dependency of the function it makes" % owner, "violated" if bad else "ok",
                ("dependencies are dropped on the way to the list (%s): a variable used only by a function nested in this one is not captured, and is then looked up in "
                 "the callers' frames" % sorted({b[0] for b in bad})) if bad else "", bad[0][1] if bad else f.span, fn=f.path, key="%s|%s" % (rule, owner))
+
+
+def modify_depends_on_the_declared_variable(F, rep, rule="C07.modify-target"):
+    """`modify x = v` makes the enclosing function depend on the captured `x`.  Dependencies are cancelled against the owner's declaration by name
+    *and type*: if the dependency carried the type of the stored value (`int`) while the variable was declared `int?`, it would not be
+    cancelled, leak out of the owner, and the owner itself would be made with `x` on its capture list (`x is not in scope` when the module
+    loads).  Parser::assignment therefore gives the target of a `modify` the type of the previous binding (wrapped as a captured variable)."""
+    pa = F.fn("compiler::ast::assignment::<impl compiler::parser::Parser>::assignment") or F.fn("compiler::parser::Parser::assignment")
+    if pa is None:
+        raise AnchorMissing("Parser::assignment")
+    sets = pa.calls_to("compiler::ast::ident::Ident::set_type_no_link")
+    thr = rules.TRANSPARENT | {rules.TRY_BRANCH, "core::option::Option::unwrap", "core::result::Result::unwrap", "core::clone::Clone::clone", "alloc::boxed::Box::new",
+                               "compiler::ast::r#type::TypeLayout::disregard_distractors", "compiler::ast::r#type::TypeLayout::get_type_recursively",
+                               "alloc::borrow::ToOwned::to_owned", "alloc::borrow::Cow::into_owned", "core::ops::deref::Deref::deref", "core::convert::AsRef::as_ref"}
+
+    def leaves(l, depth=0, seen=None):
+        seen = set() if seen is None else seen
+        out = set()
+        for o in (rules.origins(pa, l, transparent=thr) if l is not None else ()):
+            if o[0] == "call":
+                out |= {c.callee() for c in pa.calls() if c.bb == o[1]}
+            elif o[0] == "agg" and depth < 6 and o not in seen:
+                seen.add(o)
+                for bi, si, dst, rv, st in pa.assigns():
+                    if (bi, si) == (o[1], o[2]):
+                        out.add("agg:" + str(rv["agg"].get("v")))
+                        for x in rv["ops"]:
+                            out |= leaves(op_local(x), depth + 1, seen)
+        return out
+    ok = False
+    detail = "no Ident::set_type_no_link in Parser::assignment"
+    for c in sets:
+        lv = leaves(op_local(c.args[1]) if len(c.args) > 1 else None)
+        if "agg:CallbackVariable" in lv and any(x.endswith("ident::Ident::ty") for x in lv):
+            ok = True
+        else:
+            detail = "the type given to the target derives from %s" % sorted(lv)[:5]
+    rep.ob(rule, "the target of `modify` carries the declared type of the captured variable (not the type of the stored value)", "ok" if ok else "violated",
+           "" if ok else detail + ": `x: int? = nil` / `set = fn() { modify x = 5 }` leaks a dependency on an `int` x out of the owner, which then fails to load",
+           pa.span, fn=pa.path, key=rule + "|declared-type")
 
 
 def fresh_cell_for_new_names_only(F, rep):
